@@ -66,7 +66,7 @@ class Programs(gen.RandomPrograms):
 
     def __init__(self, rng, literals, **kw):
         super().__init__(rng, allow=('num', 'neg', 'bin', 'paren', 'call1', 'call2') if literals else ('neg', 'bin', 'paren', 'call1', 'call2'),
-                         literals=literals or ('1',), lhs_offsets=(0,), **kw)
+                         literals=literals or ('1',), **dict({'lhs_offsets': (0,)}, **kw))
 
     def func(self, pool):
         f = self.rng.choice(['exp', 'log', 'abs'] if pool is gen.FUNCS1 else ['max', 'min'])
@@ -148,7 +148,10 @@ def option_sets(rng, n, L, D, count):
             out.append(dict(entry='_evaluate', t=rng.choice([tb, tb - n]), min_iter=0, max_iter=1, tol=1e-6, failures='ignore', errors='raise', offset=0, fortran_only=True))
     # positions outside the span altogether, at either end and far out (where a wrapped index would land on a feasible period)
     for tt in (-n - 1, -2 * n, -2 * n - feas[0] - 1 + n, -3 * n + feas[-1], n, n + feas[0], 2 * n + 1):
-        out.append(dict(entry=rng.choice(['_evaluate', '_evaluate', 'solve_t']), t=tt, min_iter=0, max_iter=2, tol=1e-6, failures='ignore', errors='raise', offset=0))
+        # (the Python _evaluate() has no guard of its own - it fails or not depending on which cells the equations happen to touch -
+        #  so for that entry point the Fortran routine is held to its own rule: IndexError and no change; solve_t is compared)
+        entry = rng.choice(['_evaluate', '_evaluate', 'solve_t'])
+        out.append(dict(entry=entry, t=tt, min_iter=0, max_iter=2, tol=1e-6, failures='ignore', errors='raise', offset=0, **({'fortran_only': True} if entry == '_evaluate' else {})))
     # infeasible explicit periods and min_iter > max_iter
     out.append(dict(entry='solve_t', t=rng.choice([0, -n] if L else [n - 1, -1]) if (L or D) else feas[0], min_iter=0, max_iter=5, tol=1e-6, failures='ignore', errors='raise', offset=0))
     out.append(dict(entry='solve_t', t=feas[0], min_iter=4, max_iter=2, tol=1e-6, failures='ignore', errors='raise', offset=0))
@@ -451,7 +454,8 @@ def run_shard(ctx):
             literals = i % 3 == 2
             big = i % 5 == 4
             rp = Programs(rng, ('1', '2', '0.5', '3', '0.1', '2.5', '10') if literals else None, names=NAMES, max_depth=4 if not big else 5,
-                          max_eqs=3 if not big else 8, max_names=6 if not big else 28, offsets=(-2, -1, -1, 0, 0, 0, 1, 2), kinds=('var', 'var', 'var', 'param', 'error'))
+                          max_eqs=3 if not big else 8, max_names=6 if not big else 28, offsets=(-2, -1, -1, 0, 0, 0, 1, 2), kinds=('var', 'var', 'var', 'param', 'error'),
+                          lhs_offsets=(0, 0, 0, 0, 0, -1, 1))       # an equation may assign to a neighbouring period (K[1] = ...)
             prog = rp.program()
             if gen.classify(prog).reject:
                 continue
